@@ -22,6 +22,7 @@ import vlib
 from vlib import proof_coverage
 
 sys.path.insert(0, str(Path(__file__).resolve().parent))
+import features  # noqa: E402
 import gen_prog  # noqa: E402
 import spec_paths  # noqa: E402
 import tie  # noqa: E402
@@ -90,9 +91,16 @@ def compare(ctx, items, stats, tag):
             stats["hyps"][hname] += int(hv)
         sound_hyps = m["hyps"]["uniform"] and m["hyps"]["wf_shape"]
         compl_hyps = sound_hyps and all(m["hyps"][h] for h in ("h_exit", "all_reached", "events_wf", "io_ok", "exit_reachable"))
-        stats["hyps"]["lin_sound applies"] += int(sound_hyps)
-        stats["hyps"]["lin_complete applies"] += int(compl_hyps)
-        if not m["hyps"]["wf_shape"] or not m["hyps"]["events_wf"] or not m["hyps"]["io_ok"]:
+        typing = all(m["hyps"][h] for h in ("typed", "edges_ok", "exit_row_ok", "wf_idx"))
+        stats["hyps"]["lin_sound (uniform) applies"] += int(sound_hyps)
+        stats["hyps"]["lin_sound_rebind applies"] += int(m["hyps"]["wf_shape"] and typing)
+        stats["hyps"]["lin_complete_strict applies"] += int(compl_hyps and typing)
+        stats["hyps"]["lin_exact_rebind applies"] += int(typing and all(
+            m["hyps"][h] for h in ("wf_shape", "h_exit", "all_reached", "events_wf", "io_ok", "exit_reachable")))
+        if it.get("fn"):
+            for ft in features.features(it["fn"]):
+                stats["constructs"][ft] += 1
+        if not m["hyps"]["wf_shape"] or not m["hyps"]["events_wf"] or not m["hyps"]["io_ok"] or not typing:
             # these are properties of every CFG the front end / flatten produce
             ctx.report(it["key"] + ":hyps", "correspondence", "structural hypotheses of the theorems",
                        {"program": it["text"], "function": it["name"], "hypotheses": m["hyps"]})
@@ -134,16 +142,19 @@ def run(ctx) -> int:
     stats = {"evaluations": 0, "pre": 0, "unmodelled": 0, "disagreements": 0, "unsound": 0,
              "incomplete": 0, "boundary_while_true": 0, "multi_candidate": 0,
              "impl_verdicts": Counter(), "model_verdicts": Counter(), "blocks_hist": Counter(),
-             "unmodelled_reasons": Counter(), "hyps": Counter()}
+             "unmodelled_reasons": Counter(), "hyps": Counter(), "constructs": Counter()}
 
     # ---- corpus first -------------------------------------------------------------------
     items = []
-    for f in sorted((HERE / "corpus").glob("*.json")):
-        c = json.loads(f.read_text())
-        res = run_impl(ctx, [(gen_prog.HEADER + c["module"], list(c["expect"]))])[0]
+    corpus = [(f.stem, json.loads(f.read_text())) for f in sorted((HERE / "corpus").glob("*.json"))]
+    names = [n for _, c in corpus for n in c["expect"]]
+    assert len(names) == len(set(names)), "corpus function names must be unique"
+    # one harness process for the whole corpus (the import of the compiler dominates)
+    res = run_impl(ctx, [(gen_prog.HEADER + "\n".join(c["module"] for _, c in corpus), names)])[0]
+    for stem, c in corpus:
         for name, exp in c["expect"].items():
             items.append({"name": name, "text": c["module"], "fn": None, "impl": res[name],
-                          "expect": exp, "key": f"corpus:{f.stem}:{name}"})
+                          "expect": exp, "key": f"corpus:{stem}:{name}"})
     compare(ctx, items, stats, "corpus")
     ncorpus = len(items)
 
@@ -187,6 +198,7 @@ def run(ctx) -> int:
         blocks_histogram={str(k): v for k, v in sorted(stats["blocks_hist"].items())},
         rejections_with_several_candidate_places=stats["multi_candidate"],
         theorem_hypotheses_hold_on=dict(stats["hyps"]),
+        dumped_cfgs_from_programs_with_construct=dict(sorted(stats["constructs"].items(), key=lambda kv: -kv[1])),
         disagreements=stats["disagreements"], search_unsound=stats["unsound"], search_incomplete=stats["incomplete"],
         search_boundary_while_true=stats["boundary_while_true"], samples=samples,
         seconds={"proofs": t_proofs, "total": round(time.time() - t0, 1)})
